@@ -35,6 +35,11 @@ Line protocol for C16.
 tree := '(' hex(tag) { '@' hex(attr) '=' hex(value) } { tree | '\'' hex(text) } ')'
 (hex of the empty string is "-").
 
+A DOCX op whose document.xml `docx.Open` refuses (a decoded paragraph nests inline containers
+deeper than `maxInlineDepth`) is answered `err` (c16.docx, c16.docx.views, c16.docx.cached,
+c16.docx.api); `odt.Open` refuses nothing: an ODT element the decoder gives up in is dropped
+together with everything behind it (`Walk.done`).
+
 reply := <n> <elem>;<elem>;…      (n = number of elements)
   paragraph  p:<h<level>|->:<list|->:<hex text>     docx list = <hex numId>.<level>, odt list = L<level>
   table      t:<row>/<row>…   row = <cell>,<cell>…  cell = <hex text>.<colSpan>.<rowSpan>.<0|1>
@@ -178,8 +183,9 @@ def handle (op : String) (args : List String) : String :=
   | "c16.docx", [doc, styles] =>
     match parseTree doc, parseOptTree styles with
     | some d, some st =>
-      let els := Docx.elements d st
-      s!"{els.length} {";".intercalate (els.map dumpDocx)}"
+      match Docx.openElements d st with
+      | some els => s!"{els.length} {";".intercalate (els.map dumpDocx)}"
+      | none => "err"
     | _, _ => "bad-op"
   | "c16.odt", [content, styles] =>
     match parseTree content, parseOptTree styles with
@@ -190,10 +196,12 @@ def handle (op : String) (args : List String) : String :=
   | "c16.docx.views", [doc, styles, numbering, hdrs, ftrs, exH, exF, off, mx, seq] =>
     match parseTree doc, parseOptTree styles, parseOptTree numbering, parseTrees hdrs, parseTrees ftrs, off.toInt?, mx.toInt? with
     | some d, some st, some nm, some hs, some fs, some off, some mx =>
-      let rd := Docx.openReader d st nm hs fs
-      let opts : Docx.ExtractOptions := { excludeHeaders := exH == "1", excludeFooters := exF == "1" }
-      let o : Docx.MdOptions := { offset := off, maxLevel := mx }
-      " ".intercalate (seq.toList.map (docxView rd opts o))
+      match Docx.openReader? d st nm hs fs with
+      | none => "err"
+      | some rd =>
+        let opts : Docx.ExtractOptions := { excludeHeaders := exH == "1", excludeFooters := exF == "1" }
+        let o : Docx.MdOptions := { offset := off, maxLevel := mx }
+        " ".intercalate (seq.toList.map (docxView rd opts o))
     | _, _, _, _, _, _, _ => "bad-op"
   | "c16.odt.views", [content, styles, exH, exF, off, mx, seq] =>
     match parseTree content, parseOptTree styles, off.toInt?, mx.toInt? with
@@ -214,15 +222,19 @@ def handle (op : String) (args : List String) : String :=
   | "c16.docx.cached", [doc, styles] =>
     match parseTree doc, parseOptTree styles with
     | some d, some st =>
-      let els := Docx.elementsC d st
-      s!"{els.length} {";".intercalate (els.map dumpDocx)}"
+      if Docx.documentDecodes d then
+        let els := Docx.elementsC d st
+        s!"{els.length} {";".intercalate (els.map dumpDocx)}"
+      else "err"
     | _, _ => "bad-op"
   | "c16.docx.api", [doc, styles, numbering, hdrs, ftrs, exH, exF] =>
     match parseTree doc, parseOptTree styles, parseOptTree numbering, parseTrees hdrs, parseTrees ftrs with
     | some d, some st, some nm, some hs, some fs =>
-      let rd := Docx.openReader d st nm hs fs
-      let a : Docx.ApiOptions := { excludeHeaders := exH == "1", excludeFooters := exF == "1" }
-      s!"T:{hexS (Docx.apiText rd a)} M:{hexS (Docx.apiMarkdown rd a)} D:{orDash (";".intercalate ((Docx.apiDocument rd).map dumpDocElem))}"
+      match Docx.openReader? d st nm hs fs with
+      | none => "err"
+      | some rd =>
+        let a : Docx.ApiOptions := { excludeHeaders := exH == "1", excludeFooters := exF == "1" }
+        s!"T:{hexS (Docx.apiText rd a)} M:{hexS (Docx.apiMarkdown rd a)} D:{orDash (";".intercalate ((Docx.apiDocument rd).map dumpDocElem))}"
     | _, _, _, _, _ => "bad-op"
   | "c16.odt.api", [content, styles, exH, exF] =>
     match parseTree content, parseOptTree styles with
